@@ -39,6 +39,7 @@ type canon struct {
 	cidPtr   uintptr
 	encPtr   uintptr
 	encSnap  []postscript.Object
+	encArr   postscript.Array
 	sb       strings.Builder
 }
 
